@@ -135,6 +135,18 @@ pub enum Step {
 pub const PATHS: &[&str] = &["moditer", "compiter", "modifier"];
 
 thread_local! {
+    /// when set, `pull_side_effects()` is called before `encode()`: asking for the report must not change what is encoded
+    pub static PULL_FIRST: std::cell::Cell<bool> = const { std::cell::Cell::new(false) };
+}
+
+/// one case in six asks for the side-effect report first (derived from the case number, not from the case's own stream)
+pub fn set_pull_first(seed: u64, case: u64) -> bool {
+    let v = Rng::new(seed, "pull-first", case).chance(1, 6);
+    PULL_FIRST.with(|c| c.set(v));
+    v
+}
+
+thread_local! {
     /// when set, a probe is `i32.const k; call <f>` (the `sem` family's reporting probes) instead of `i32.const k; drop`
     pub static PROBE_CALL: std::cell::Cell<Option<u32>> = const { std::cell::Cell::new(None) };
 }
@@ -211,7 +223,50 @@ pub fn gen_plan(r: &mut Rng, toks: &[String], allow_special: bool, next_probe: &
             }
         }
     }
+    // two special modes that meet at one `end`: a block-level probe on a construct and a semantic-after probe on a branch
+    // that targets the same construct (their bodies share the resolver's per-block tables)
+    if allow_special && r.chance(1, 5) {
+        let pairs: Vec<(usize, usize)> = (0..n).filter(|b| is_branch(&toks[*b]) && !toks[*b].starts_with("br_table")).filter_map(|b| branch_target(toks, b).map(|t| (b, t))).collect();
+        if !pairs.is_empty() {
+            let (b, t) = *r.pick(&pairs);
+            let block_mode = *r.pick(&[5usize, 5, 4, 3]);
+            let p1 = probes(r, next_probe);
+            let p2 = probes(r, next_probe);
+            let s1 = Step::At { idx: t, mode: block_mode, probes: p1 };
+            let s2 = Step::At { idx: b, mode: 3, probes: p2 };
+            if r.chance(1, 2) {
+                plan.push(s1);
+                plan.push(s2);
+            } else {
+                plan.push(s2);
+                plan.push(s1);
+            }
+        }
+    }
     plan
+}
+
+/// the opening instruction of the construct a `br:d` / `br_if:d` at `b` targets (`None`: the function label)
+fn branch_target(toks: &[String], b: usize) -> Option<usize> {
+    let mut count: usize = toks[b].split(':').nth(1)?.parse().ok()?;
+    let mut skip = 0usize;
+    for i in (0..b).rev() {
+        let h = toks[i].split(':').next().unwrap();
+        match h {
+            "end" => skip += 1,
+            "block" | "loop" | "if" => {
+                if skip > 0 {
+                    skip -= 1;
+                } else if count == 0 {
+                    return Some(i);
+                } else {
+                    count -= 1;
+                }
+            }
+            _ => {}
+        }
+    }
+    None
 }
 
 fn im(mode: usize) -> IM {
@@ -410,6 +465,9 @@ pub fn instrument(wat: &str, target: usize, nimp: usize, path: &str, plan: &[Ste
                 apply_iter(&mut it, fid, plan, true, &ops_cell);
             }
             let special = comp.modules[0].functions.get(fid).unwrap_local().instr_flag.has_special_instr();
+            if PULL_FIRST.with(|c| c.get()) {
+                let _ = comp.modules[0].pull_side_effects();
+            }
             let b = comp.modules[0].encode();
             let b2 = comp.modules[0].encode();
             (b, special, b2)
@@ -422,6 +480,9 @@ pub fn instrument(wat: &str, target: usize, nimp: usize, path: &str, plan: &[Ste
                 apply_modifier(&mut m, fid, plan, ntoks - 1, &ops_cell);
             }
             let special = m.functions.get(fid).unwrap_local().instr_flag.has_special_instr();
+            if PULL_FIRST.with(|c| c.get()) {
+                let _ = m.pull_side_effects();
+            }
             let b = m.encode();
             let b2 = m.encode();
             (b, special, b2)
@@ -618,6 +679,9 @@ pub fn run(ctx: &mut Ctx) {
         ctx.count(&format!("path={path}"));
         ctx.count(&format!("class={}", if allow_special { "special" } else { "plain" }));
         ctx.count(&format!("bodylen={}", (toks.len() / 5) * 5));
+        if set_pull_first(ctx.seed, case) {
+            ctx.count("side-effect-report-pulled-before-encode");
+        }
         let lowered = instrument(&wat, 0, nimp, path, &plan, toks.len(), nlocals_decl);
         ctx.case_line(&format!(
             "lower {case} nlocals={} body={} plan={}",
@@ -755,7 +819,12 @@ pub fn run(ctx: &mut Ctx) {
                                         format!("{}-{}-{}-{}-lost{}", MODES[*mode].0, target, path, via, sticky)
                                     };
                                     fails.push((
-                                        "C22",
+                                        match *mode {
+                                            3 => "C20,C22",
+                                            4 => "C18,C22",
+                                            5 => "C19,C22",
+                                            _ => "C21,C22",
+                                        },
                                         sig,
                                         format!("probe {p} injected at {idx} ({}) is not in the output", toks[*idx]),
                                     ));
@@ -768,7 +837,7 @@ pub fn run(ctx: &mut Ctx) {
                         if let Step::Func { exit, probes } = st {
                             for p in probes {
                                 if !out.contains(&format!("i32.const:{p}")) {
-                                    fails.push(("C22", format!("func_{}-{}-lost", if *exit { "exit" } else { "entry" }, path), format!("probe {p} is not in the output")));
+                                    fails.push(("C17,C22", format!("func_{}-{}-lost", if *exit { "exit" } else { "entry" }, path), format!("probe {p} is not in the output")));
                                 }
                             }
                         }
